@@ -314,7 +314,7 @@ pub fn structured_table(rng: &mut Rng, thorough: bool) -> Table {
     match kind {
         0 | 1 => {
             // cycle / mod-k counter on letter 0, other letters keep the state (or reset)
-            let k = 2 + rng.usize(maxn / 2);
+            let k = if rng.chance(1, 4) { *rng.pick(&[7usize, 8, 9, 15, 16, 17, 31, 32, 33, 63, 64, 65]) } else { 2 + rng.usize(maxn / 2) };
             n = k;
             delta = (0..k).map(|s| (0..=nl).map(|l| if l == 0 { (s + 1) % k } else if rng.chance(1, 6) { 0 } else { s }).collect()).collect();
             fin = (0..k).map(|s| s == k - 1).collect();
